@@ -108,6 +108,43 @@ func (s *slicer) SliceFrom(v ssa.Value, root *ssa.Function) *sliceRes {
 	return res
 }
 
+// SliceUp: the slice of v extended upwards through parameters at every static call site in the
+// module (bounded): where does the value come from, whoever calls?
+func (s *slicer) SliceUp(v ssa.Value) *sliceRes {
+	res := s.Slice(v)
+	callers := s.p.callersIndex()
+	done := map[*ssa.Parameter]bool{}
+	for round := 0; round < 3; round++ {
+		var todo []*ssa.Parameter
+		for x := range res.Vals {
+			if par, ok := x.(*ssa.Parameter); ok && !done[par] {
+				todo = append(todo, par)
+			}
+		}
+		if len(todo) == 0 {
+			break
+		}
+		for _, par := range todo {
+			done[par] = true
+			h := par.Parent()
+			if h == nil {
+				continue
+			}
+			pi := paramIndex(h, par)
+			for g := range callers[h] {
+				allInstrs(g, func(in ssa.Instruction) {
+					c, ok := in.(ssa.CallInstruction)
+					if !ok || staticCallee(c) != h || pi >= len(c.Common().Args) {
+						return
+					}
+					s.walk(c.Common().Args[pi], res, 0)
+				})
+			}
+		}
+	}
+	return res
+}
+
 func (s *slicer) walk(v ssa.Value, res *sliceRes, depth int) {
 	if v == nil || res.Vals[v] {
 		return
